@@ -9,6 +9,17 @@ Tie:      real arbiter instances on a real storing.Store (default share, input s
           instantiation); mode f: arbitrary doubles vs the Float instantiation bit for bit.
 Oracle:   the documented rule evaluated by this file with fractions.Fraction, straight from the property text.
 
+A case may also describe the store the arbiter is built on and what happens before the observed update():
+  "pre":  {"insels": [[tag index | "x", sel token], …], "inimps": [[tag index | "x", num token], …], "out": bool}
+          fields that already exist in group.insels / group.inimps before construction, IN THAT ORDER (any permutation
+          of the inputs, some missing, extra tags "x…" that are no inputs); the constructor only creates fields that
+          do not exist, so these values are the selections / importances; "out": the output share pre-exists with
+          other fields
+  "ops":  [["set", k, sel] | ["readd", k, sel] | ["drop", k] | ["rebuild", [permutation]]] applied after construction:
+          selection changed in place / field deleted and added again (moves to the end of the share) / deleted /
+          a new arbiter built on the same store and group with its inputs listed in another order
+The model's and the oracle's input order is the order of the LAST construction; their selections and importances
+are the values the documented rules give (pre-existing field, else constructor argument, then the ops).
 case = {"arb": switch|priority|trusted|weighted, "mode": q|f, "dv": val, "dt": truth (as found by __init__),
         "ins": [{"sel": python value token, "imp": num, "truth": truth, "value": val, "shape": "value"|"other"|"empty"}]}
 tokens: None -> null, bools -> true/false, numbers "i:<int>" | "q:<p>/<q>" (float, exact) | "x:<hex16>", strings "s:<n>"
@@ -83,7 +94,12 @@ class CHECK(core.Check):
             "field only, or with no field at all; default truth as found by __init__ from the same truth set; 12% in "
             "mode f (random doubles). Bounded-exhaustive: every list of <=2 inputs (thorough <=3) over a reduced value "
             "set x 4 arbiters x 2 default truths. non-trivial = at least one selected input and the arbiter did not "
-            "fall back to the default; distinct by the whole case")
+            "fall back to the default; distinct by the whole case. "
+            "40% of the random cases run a scenario: group.insels / group.inimps (and the output share) already exist "
+            "with their fields in a permuted order, some missing, extra tags; after construction selections are "
+            "changed in place, deleted, deleted and re-added (field moves to the end), or a new arbiter is built on the "
+            "same store and group with its inputs in another order; the observed update() must follow the input order "
+            "of the last construction")
     TRUSTED = ["correspondence: arbiting.ArbiterSwitch/Priority/Trusted/Weighted instances built on a real storing.Store "
                "through their constructor, one update(); output share .value/.truth compared with the Lean driver 'arbiter'",
                "the check is meant for /repo + fixes/D24-arbiter-trusted-imputmax.patch + fixes/D25b-arbiter-inputmax-truthiness.patch",
@@ -136,6 +152,50 @@ class CHECK(core.Check):
                 "dt": rng.choice([None, True, False, "q:1/4", "q:1/4", "q:1/2", "i:0", "q:0/1", "q:3/4", "i:2", "q:-1/2"]),
                 "ins": [self._input(rng) for _ in range(n)]}
 
+    def _scenario(self, rng, case):
+        """pre-existing group shares and run-time changes of the selection share"""
+        n = len(case["ins"])
+        if n == 0:
+            return case
+        if rng.random() < 0.6:
+            ks = list(range(n))
+            rng.shuffle(ks)
+            pre = {}
+            sels = [[k, rng.choice(self.SELS)] for k in ks if rng.random() < 0.85]
+            if rng.random() < 0.3:
+                sels.insert(rng.randrange(len(sels) + 1), ["x1", True])
+            if sels:
+                pre["insels"] = sels
+            if rng.random() < 0.5:
+                ks2 = list(range(n))
+                rng.shuffle(ks2)
+                imps = [[k, rng.choice(self.IMPS)] for k in ks2 if rng.random() < 0.8]
+                if rng.random() < 0.3:
+                    imps.insert(0, ["x2", "i:5"])
+                if imps:
+                    pre["inimps"] = imps
+            if rng.random() < 0.3:
+                pre["out"] = True
+            if pre:
+                case["pre"] = pre
+        if rng.random() < 0.6:
+            ops = []
+            for _ in range(rng.choice([1, 1, 2, 3])):
+                r = rng.random()
+                k = rng.randrange(n)
+                if r < 0.4:
+                    ops.append(["readd", k, rng.choice([True, True, "i:1", "s:1", False])])
+                elif r < 0.6:
+                    ops.append(["set", k, rng.choice(self.SELS)])
+                elif r < 0.7:
+                    ops.append(["drop", k])
+                else:
+                    perm = list(range(n))
+                    rng.shuffle(perm)
+                    ops.append(["rebuild", perm])
+            case["ops"] = ops
+        return case
+
     def _gen_f(self, rng, tier):
         def X(v):
             return "x:" + struct.pack(">d", float(v)).hex()
@@ -150,7 +210,14 @@ class CHECK(core.Check):
 
     def generate(self, rng, n, tier):
         for i in range(n):
-            yield self._gen_f(rng, tier) if rng.random() < 0.12 else self._gen_q(rng, tier)
+            c = self._gen_f(rng, tier) if rng.random() < 0.12 else self._gen_q(rng, tier)
+            if rng.random() < 0.4:
+                if c["mode"] == "q" and rng.random() < 0.5:          # several selected inputs: order matters
+                    for x in c["ins"]:
+                        if rng.random() < 0.7:
+                            x["sel"] = True
+                c = self._scenario(rng, c)
+            yield c
 
     def exhaustive(self, tier):
         sels = [True, False]
@@ -168,6 +235,49 @@ class CHECK(core.Check):
                     pool = one if n < 3 else one3
                     for combo in itertools.product(pool, repeat=n):
                         yield {"arb": arb, "mode": "q", "dv": "i:0", "dt": dt, "ins": [dict(c) for c in combo]}
+
+    # ------------------------------------------------------------------ the scenario
+    def _eff(self, case):
+        """inputs as the arbiter must see them at the observed update(): order of the last construction, selection /
+        importance = pre-existing field if any, else the constructor argument, then the run-time ops"""
+        ins = case["ins"]
+        n = len(ins)
+        pre = case.get("pre") or {}
+        sel = {k: ins[k]["sel"] for k in range(n)}
+        imp = {k: ins[k]["imp"] for k in range(n)}
+        for k, v in pre.get("insels", []):
+            if isinstance(k, int) and k < n:
+                sel[k] = v
+        for k, v in pre.get("inimps", []):
+            if isinstance(k, int) and k < n:
+                imp[k] = v
+        order = list(range(n))
+        for op in case.get("ops", []):
+            if op[0] in ("set", "readd"):
+                sel[op[1]] = op[2]
+            elif op[0] == "drop":
+                sel[op[1]] = None                     # fetch() of a missing field gives None
+            elif op[0] == "rebuild":
+                order = list(op[1])
+                for k in range(n):
+                    if sel[k] is None and ("dropped", k) in self._dropped(case, op):
+                        sel[k] = ins[k]["sel"]        # the new constructor creates the missing field from its argument
+        return [dict(ins[k], sel=sel[k], imp=imp[k]) for k in order]
+
+    @staticmethod
+    def _dropped(case, upto):
+        """{("dropped", k)} for selection fields that do not exist when op `upto` runs"""
+        gone = set()
+        for op in case.get("ops", []):
+            if op is upto:
+                break
+            if op[0] == "drop":
+                gone.add(("dropped", op[1]))
+            elif op[0] in ("readd", "set"):
+                gone.discard(("dropped", op[1]))
+            elif op[0] == "rebuild":
+                gone.clear()
+        return gone
 
     # ------------------------------------------------------------------ implementation
     def impl(self, case):
@@ -190,8 +300,35 @@ class CHECK(core.Check):
             inputs["t%d" % k] = (path, self._sel_py(i["sel"]), py(i["imp"]))
         cls = {"switch": arbiting.ArbiterSwitch, "priority": arbiting.ArbiterPriority,
                "trusted": arbiting.ArbiterTrusted, "weighted": arbiting.ArbiterWeighted}[case["arb"]]
+        pre = case.get("pre") or {}
+        tag = lambda k: ("t%d" % k) if isinstance(k, int) else str(k)
+        if pre.get("insels"):
+            sh = store.create(".grp.insels")
+            for k, v in pre["insels"]:
+                sh.update(**{tag(k): self._sel_py(v)})
+        if pre.get("inimps"):
+            sh = store.create(".grp.inimps")
+            for k, v in pre["inimps"]:
+                sh.update(**{tag(k): py(v)})
+        if pre.get("out"):
+            store.create(".out").update(aux=7, truth=3, value=5)
         try:
             arb = cls(name="arb", store=store, output=".out", group=".grp", inputs=inputs)
+            for op in case.get("ops", []):
+                if op[0] == "set":
+                    arb.insels.update(**{tag(op[1]): self._sel_py(op[2])})
+                elif op[0] == "readd":
+                    if tag(op[1]) in arb.insels:
+                        del arb.insels[tag(op[1])]
+                    arb.insels.update(**{tag(op[1]): self._sel_py(op[2])})
+                elif op[0] == "drop":
+                    if tag(op[1]) in arb.insels:
+                        del arb.insels[tag(op[1])]
+                elif op[0] == "rebuild":
+                    again = odict()
+                    for k in op[1]:
+                        again["t%d" % k] = inputs["t%d" % k]
+                    arb = cls(name="arb", store=store, output=".out", group=".grp", inputs=again)
             arb.update()
         except Exception as ex:
             return ["E %s" % type(ex).__name__]
@@ -204,11 +341,11 @@ class CHECK(core.Check):
 
     def _line(self, case, m):
         return " ".join([m, case["arb"], val_wire(py(case["dv"]), m), val_wire(py(case["dt"]), m)] +
-                        [self._in_wire(i, m) for i in case["ins"]])
+                        [self._in_wire(i, m) for i in self._eff(case)])
 
     def _region_line(self, case):
         # exact evaluation of the numbers (comparisons only): the same predicate in both modes
-        return " ".join(["q", "d25region", val_wire(py(case["dt"]), "q")] + [self._in_wire(i, "q") for i in case["ins"]])
+        return " ".join(["q", "d25region", val_wire(py(case["dt"]), "q")] + [self._in_wire(i, "q") for i in self._eff(case)])
 
     def requests(self, case):
         if case["mode"] == "q" and case["arb"] == "weighted":
@@ -258,7 +395,7 @@ class CHECK(core.Check):
             return F(v)
         dv, dt = num(py(case["dv"])), fix(py(case["dt"]))
         default = (dv, dt)
-        ins = [(bool(self._sel_py(i["sel"])), F(py(i["imp"])), py(i["truth"]), num(py(i["value"]))) for i in case["ins"]]
+        ins = [(bool(self._sel_py(i["sel"])), F(py(i["imp"])), py(i["truth"]), num(py(i["value"]))) for i in self._eff(case)]
         arb = case["arb"]
         if arb == "switch":
             for sel, imp, truth, value in ins:
@@ -296,9 +433,9 @@ class CHECK(core.Check):
 
         scale_v = None
         if case["arb"] == "weighted":                # magnitude of the terms, for the rounding allowance in mode f
-            terms = [abs(F(py(i["imp"])) * fix(py(i["truth"])) * F(py(i["value"]))) for i in case["ins"]
+            terms = [abs(F(py(i["imp"])) * fix(py(i["truth"])) * F(py(i["value"]))) for i in self._eff(case)
                      if self._sel_py(i["sel"]) and isinstance(py(i["value"]), (int, float))]
-            cs = abs(sum((F(py(i["imp"])) * fix(py(i["truth"])) for i in case["ins"] if self._sel_py(i["sel"])), F(0)))
+            cs = abs(sum((F(py(i["imp"])) * fix(py(i["truth"])) for i in self._eff(case) if self._sel_py(i["sel"])), F(0)))
             scale_v = (sum(terms, F(0)) / cs) if cs else F(0)
 
         def same(tok, w, what):
@@ -324,7 +461,7 @@ class CHECK(core.Check):
     def nontrivial(self, case, out):
         if not out or out[0].startswith(("E", "HARNESS")):
             return False
-        anysel = any(bool(self._sel_py(i["sel"])) for i in case["ins"])
+        anysel = any(bool(self._sel_py(i["sel"])) for i in self._eff(case))
         dflt = "%s %s" % (val_wire(py(case["dv"]), case["mode"]), "#" + num_wire(fix(py(case["dt"])), case["mode"]))
         return anysel and out[0] != dflt
 
@@ -334,7 +471,8 @@ class CHECK(core.Check):
         kind = "default" if not self.nontrivial(case, out) else "input"
         if out and out[0].startswith("E"):
             kind = "raised"
-        return "%s/%s/n%d%s/%s" % (case["mode"], case["arb"], min(n, 4), "+" if n > 4 else "",
+        sc = ("+pre" if case.get("pre") else "") + ("+ops" if case.get("ops") else "")
+        return "%s/%s%s/n%d%s/%s" % (case["mode"], case["arb"], sc, min(n, 4), "+" if n > 4 else "",
                                    kind + ("/emptyshare" if "empty" in shapes else ""))
 
     def shrink_candidates(self, case):
@@ -343,6 +481,24 @@ class CHECK(core.Check):
                 yield c
 
     def _shrink(self, case):
+        if case.get("ops"):
+            for k in range(len(case["ops"])):
+                c = dict(case)
+                c["ops"] = case["ops"][:k] + case["ops"][k + 1:]
+                yield c
+            return                                    # input indices are referenced by the ops: keep the inputs
+        if case.get("pre"):
+            c = dict(case)
+            c.pop("pre")
+            yield c
+            for key in ("insels", "inimps"):
+                lst = case["pre"].get(key) or []
+                for k in range(len(lst)):
+                    c = dict(case)
+                    c["pre"] = dict(case["pre"])
+                    c["pre"][key] = lst[:k] + lst[k + 1:]
+                    yield c
+            return
         ins = case["ins"]
         for k in range(len(ins)):
             c = dict(case)
